@@ -71,6 +71,8 @@ def run(chk):
     c08.rule_fanout(chk)
     c10.rule_line(chk, prefix="C11")
     c10.rule_mode(chk)          # a file given the wrong kind of data rejects every write: the calls return and nothing is on disk
+    from . import c13
+    c13.rule_write_fresh(chk)   # a routing key that survives in a legacy Message sends its next write to the old logger: acknowledged, never on disk
     from . import c19
     c19.rule_writer(chk)        # a log written through the threaded writer: a reader thread that dies keeps nothing of what follows
     c09.rule_never_early(chk, prefix="C11")
